@@ -23,10 +23,18 @@ svarsAll == <<vars, hist>>
 H_(name, k, i, m) == hist' = Append(hist, <<name, k, i, m, PObs>>)
 
 Lowest(st, D, x, live) == \A y \in D : y < x => st[y] # live
-NotReopened(s) == \A j \in 1..Len(hist) : ~(hist[j][1] = "ReOpen" /\ hist[j][3] = s)
+NotYet(op, s) == \A j \in 1..Len(hist) : ~(hist[j][1] = op /\ hist[j][3] = s)
 
 (* a second open of an opened slot: returns None, changes nothing *)
-ReOpen(s) == opc = "live" /\ sst[s] # "unopened" /\ NotReopened(s) /\ UNCHANGED vars
+ReOpen(s) == opc = "live" /\ sst[s] # "unopened" /\ NotYet("ReOpen", s) /\ UNCHANGED vars
+(* the owner starts to wait for the slot's data and gives up (the pending future is dropped, e.g. by a
+   timeout): changes nothing *)
+WaitCancel(s) == opc = "live" /\ sst[s] = "open" /\ rxst[s] = "open" /\ NotYet("WaitCancel", s) /\ UNCHANGED vars
+(* the owner takes the data that wait_for_data handed back out of the slot (through the returned
+   reference): the slot value is then absent from the entry, the rest of the entry is unaffected *)
+TakeWaited(s) == /\ opc = "live" /\ data[s] >= 0
+                 /\ data' = [data EXCEPT ![s] = -1]
+                 /\ UNCHANGED <<ovars, valueRc, guardRc, closure, mutex, gst, fst, sst, smode, sval, chan, rxst, ver, emA, emB>>
 
 Start ==
     \/ "Mutate" \in SeqOps /\ Mutate /\ H_("Mutate", "o", 0, "")
@@ -37,6 +45,8 @@ Start ==
     \/ "OpenSlot" \in SeqOps /\ \E s \in S, m \in Modes : OpenSlot(s, m) /\ H_("OpenSlot", "s", s, m)
     \/ "ReOpen" \in SeqOps /\ \E s \in S : ReOpen(s) /\ H_("ReOpen", "s", s, "")
     \/ "WaitForData" \in SeqOps /\ \E s \in S : WaitForData(s) /\ H_("WaitForData", "s", s, "")
+    \/ "WaitCancel" \in SeqOps /\ \E s \in S : WaitCancel(s) /\ H_("WaitCancel", "s", s, "")
+    \/ "TakeWaited" \in SeqOps /\ \E s \in S : TakeWaited(s) /\ H_("TakeWaited", "s", s, "")
     \/ "MutSlot" \in SeqOps /\ \E s \in S : MutSlot(s) /\ H_("MutSlot", "s", s, "")
     \/ opc = "live" /\ DropOwner1 /\ H_("Drop", "o", 0, "")
     \/ \E h \in H : Lowest(hst, H, h, "live") /\ DropHandle(h) /\ H_("Drop", "h", h, "")
